@@ -1887,4 +1887,296 @@ theorem SInv_stepC {i : SInput} {s : CSt} (h : SInv i s) (hq : QInv i s) (t : Na
       exact h.acct w hw
     · exact h
 
+theorem SInv_runC {i : SInput} (sched : List Nat) : ∀ {s : CSt}, SInv i s → QInv i s → SInv i (runC i s sched) := by
+  induction sched with
+  | nil => intro s h _; exact h
+  | cons t rest ih => intro s h hq; exact ih (SInv_stepC h hq t) (QInv_stepC hq t)
+
+theorem SInv_drainC {i : SInput} : ∀ (fuel : Nat) {s : CSt}, SInv i s → QInv i s → SInv i (drainC i fuel s) := by
+  intro fuel
+  induction fuel with
+  | zero => intro s h _; exact h
+  | succ f ih =>
+    intro s h hq
+    unfold drainC
+    split
+    · exact h
+    · exact ih (SInv_stepC h hq _) (QInv_stepC hq _)
+
+theorem SInv_init (i : SInput) : SInv i (initC i) := by
+  unfold initC
+  refine SInv_nextSpawn ?_ (by simp) 0
+  refine ⟨?_, fun p hp => (by cases hp), fun e he => (by simp at he)⟩
+  intro w hw
+  have hwk : i.workers[w]? = some i.workers[w] := by simp [hw]
+  have := wpc_init i _ rfl { base := { pcs := [] :: (progs i).map fun p => segSteps p.segs }, flags := i.workers.map fun _ => false } rfl w _ hwk
+  simp [sinkOf, hand, todoItems, this, projQ, eventsOf, hwk]
+
+theorem SInv_final (i : SInput) : SInv i (finalC i) :=
+  SInv_drainC _ (SInv_runC _ (SInv_init i) (QInv_init i)) (QInv_runC _ (QInv_init i))
+
+/-! ## the stop flags of the stream flavour -/
+
+def Item.isStartRun : Item → Bool
+  | .startRun _ => true
+  | _ => false
+
+structure FInv (i : SInput) (s : CSt) : Prop where
+  f_len : s.flags.length = i.workers.length
+  tail_clean : ∀ w, w < i.workers.length → ∀ a rest, wpc s w = a :: rest → ∀ x ∈ stepItems rest, x.isStartRun = false
+  abort_suite : s.mpc = .abort → i.flavour = .suite
+  f_set : ∀ c, s.result = some (.raised c) → i.flavour = .stream → ∀ w ∈ s.reg, s.flags[w]? = some true ∨ w ∈ s.late
+  f_pend : ∀ c, s.result = some (.raised c) → i.flavour = .stream → ∀ w ∈ s.reg, firstStepPending s w = true → w ∈ s.late
+
+theorem setFlags_length : ∀ (ws : List Nat) (f : List Bool), (setFlags f ws).length = f.length
+  | [], _ => rfl
+  | w :: ws, f => by simp [setFlags, setFlags_length ws]
+
+theorem setFlags_keeps_true : ∀ (ws : List Nat) (f : List Bool) (w : Nat), f[w]? = some true → (setFlags f ws)[w]? = some true
+  | [], _, _, h => h
+  | v :: ws, f, w, h => by
+      simp only [setFlags]
+      apply setFlags_keeps_true ws
+      rw [List.getElem?_set]
+      split
+      · rename_i hvw; subst hvw
+        have : v < f.length := lt_of_getElem?_some h
+        simp [this]
+      · exact h
+
+theorem setFlags_get : ∀ (ws : List Nat) (f : List Bool) (w : Nat), w ∈ ws → w < f.length → (setFlags f ws)[w]? = some true
+  | [], _, _, h, _ => by cases h
+  | v :: ws, f, w, h, hl => by
+      simp only [setFlags]
+      rcases List.mem_cons.mp h with rfl | h
+      · exact setFlags_keeps_true ws _ _ (by simp [hl])
+      · exact setFlags_get ws _ w h (by simpa using hl)
+
+/-- main-side transitions that neither touch workers nor flags and do not end `run()` with an exception -/
+theorem FInv.transfer {i : SInput} {s s' : CSt} (h : FInv i s) (hfl : s'.flags = s.flags)
+    (hpc : ∀ w, s'.base.pcs[w + 1]? = s.base.pcs[w + 1]?) (hab : s'.mpc = .abort → i.flavour = .suite)
+    (hres : ∀ c, s'.result = some (.raised c) → i.flavour = .suite) : FInv i s' := by
+  refine ⟨by rw [hfl]; exact h.f_len, ?_, hab, ?_, ?_⟩
+  · intro w hw a rest hwp; rw [wpc_congr (hpc w)] at hwp; exact h.tail_clean w hw a rest hwp
+  · intro c hc hs; have := hres c hc; rw [hs] at this; cases this
+  · intro c hc hs; have := hres c hc; rw [hs] at this; cases this
+
+theorem FInv_finishMain_ok {i : SInput} {s : CSt} (h : FInv i s) : FInv i (finishMain s .returned) :=
+  h.transfer rfl (fun _ => rfl) (by simp) (by simp)
+
+theorem FInv_loopHead {i : SInput} {s : CSt} (h : FInv i s) (hres : s.result = none) : FInv i (loopHead s) := by
+  unfold loopHead; split
+  · exact FInv_finishMain_ok h
+  · exact h.transfer rfl (fun _ => rfl) (by simp) (by simp [hres])
+
+/-- entering the `except:` clause: in the stream flavour every registered worker's flag is set -/
+theorem FInv_abortMain {i : SInput} {s : CSt} (h : FInv i s) (hreg : ∀ w ∈ s.reg, w < i.workers.length) (c : Cause) :
+    FInv i (abortMain i s c) := by
+  unfold abortMain
+  split
+  · rename_i hf
+    refine ⟨by simp [setFlags_length, h.f_len], h.tail_clean, by simp, ?_, ?_⟩
+    · intro c' _ _ w hw
+      left
+      have hw' : w ∈ s.reg := hw
+      exact setFlags_get s.reg s.flags w hw' (by rw [h.f_len]; exact hreg w hw')
+    · intro c' _ _ w hw hp
+      exact List.mem_filter.mpr ⟨hw, hp⟩
+  · rename_i hf
+    split
+    · exact h.transfer rfl (fun _ => rfl) (by simp) (fun _ _ => hf)
+    · exact h.transfer rfl (fun w => by simp) (fun _ => hf) (fun _ _ => hf)
+
+theorem FInv_nextSpawn {i : SInput} {s : CSt} (h : FInv i s) (hreg : ∀ w ∈ s.reg, w < i.workers.length) (hres : s.result = none) (k : Nat) :
+    FInv i (nextSpawn i s k) := by
+  unfold nextSpawn; split
+  · exact h.transfer rfl (fun _ => rfl) (by simp) (by simp [hres])
+  · split
+    · exact FInv_abortMain h hreg _
+    · exact FInv_loopHead h hres
+
+theorem reg_lt {i : SInput} {s : CSt} (hq : QInv i s) : ∀ w ∈ s.reg, w < i.workers.length := by
+  intro w hw
+  exact Nat.lt_of_lt_of_le ((hq.reg_iff w).mp hw).1 (Nat.le_trans hq.nsp_le (spawnCount_le i))
+
+theorem stepItems_tail_subset {a : Step} {rest : List Step} : ∀ x ∈ stepItems rest, x ∈ stepItems (a :: rest) := by
+  intro x hx
+  cases a <;> simp_all [stepItems]
+
+theorem flagsAfter_length (s : CSt) (t : Nat) : (flagsAfter s t).length = s.flags.length := by
+  unfold flagsAfter; split <;> simp
+
+/-- a step of a started worker -/
+theorem FInv_worker {i : SInput} {s : CSt} (h : FInv i s) (hq : QInv i s) (w : Nat) (hw : w < s.nsp) :
+    FInv i { s with base := stepThread s.base (w + 1), flags := flagsAfter s (w + 1) } := by
+  have hwn : w < i.workers.length := Nat.lt_of_lt_of_le hw (Nat.le_trans hq.nsp_le (spawnCount_le i))
+  have hother : ∀ w', w' ≠ w → (stepThread s.base (w + 1)).pcs[w' + 1]? = s.base.pcs[w' + 1]? :=
+    fun w' hw' => stepThread_pcs_other s.base (w + 1) (w' + 1) (by omega)
+  refine ⟨by simp [flagsAfter_length, h.f_len], ?_, h.abort_suite, ?_, ?_⟩
+  · intro w' hw' a rest hwp
+    by_cases hww : w' = w
+    · subst hww
+      rcases stepThread_cases s.base (w' + 1) with he | ⟨a0, rest0, hpc, hpcs, _⟩
+      · simp only [wpc, he] at hwp; exact h.tail_clean w' hw' a rest hwp
+      · have hlt : w' + 1 < s.base.pcs.length := lt_of_getElem?_some hpc
+        have h1 : wpc s w' = a0 :: rest0 := by simp [wpc, hpc]
+        have h2 : rest0 = a :: rest := by simpa [wpc, hpcs, hlt] using hwp
+        intro x hx
+        exact h.tail_clean w' hw' a0 rest0 h1 x (by rw [h2]; exact stepItems_tail_subset x hx)
+    · have : wpc { s with base := stepThread s.base (w + 1), flags := flagsAfter s (w + 1) } w' = wpc s w' := by
+        simp [wpc, hother w' hww]
+      rw [this] at hwp
+      exact h.tail_clean w' hw' a rest hwp
+  · intro c hc hs w0 hw0
+    show (flagsAfter s (w + 1))[w0]? = some true ∨ w0 ∈ s.late
+    have hold := h.f_set c hc hs w0 hw0
+    unfold flagsAfter
+    split
+    · rename_i w'' tl hpc
+      have hown : w'' = w := by
+        have : Item.startRun w'' ∈ todoItems s w := by simp [todoItems, wpc, hpc, stepItems_cons_put]
+        exact (hq.goodT w hwn).2 _ this
+      subst hown
+      by_cases hww : w0 = w''
+      · subst hww
+        right
+        exact h.f_pend c hc hs w0 hw0 (by simp [firstStepPending, hpc])
+      · rcases hold with h1 | h1
+        · left
+          have hne : ¬ w'' = w0 := fun hc => hww hc.symm
+          rw [List.getElem?_set]; simp [hne, h1]
+        · right; exact h1
+    · exact hold
+  · intro c hc hs w0 hw0 hp
+    by_cases hww : w0 = w
+    · subst hww
+      rcases stepThread_cases s.base (w0 + 1) with he | ⟨a0, rest0, hpc, hpcs, _⟩
+      · simp only [firstStepPending, he] at hp
+        exact h.f_pend c hc hs w0 hw0 hp
+      · exfalso
+        have hlt : w0 + 1 < s.base.pcs.length := lt_of_getElem?_some hpc
+        have h1 : wpc s w0 = a0 :: rest0 := by simp [wpc, hpc]
+        simp only [firstStepPending, hpcs, List.getElem?_set, hlt, if_true] at hp
+        split at hp
+        · rename_i w'' tl heq
+          simp at heq
+          have := h.tail_clean w0 hwn a0 rest0 h1 (.startRun w'') (by rw [heq]; simp [stepItems])
+          simp [Item.isStartRun] at this
+        · cases hp
+    · have : firstStepPending { s with base := stepThread s.base (w + 1), flags := flagsAfter s (w + 1) } w0 = firstStepPending s w0 := by
+        simp [firstStepPending, hother w0 hww]
+      rw [this] at hp
+      exact h.f_pend c hc hs w0 hw0 hp
+
+/-- **every step preserves the facts about the stop flags** -/
+theorem FInv_stepC {i : SInput} {s : CSt} (h : FInv i s) (hq : QInv i s) (hr : RInv i s) (t : Nat) : FInv i (stepC i s t) := by
+  have hreg := reg_lt hq
+  unfold stepC
+  split
+  · split
+    · unfold stepMain
+      split
+      · rename_i k hk
+        obtain ⟨hk1, hk2⟩ := hq.mpc_spawn k hk
+        have hres := hr.result_none (by simp [hk])
+        have h1 : FInv i { s with nsp := k + 1, reg := s.reg ++ [k] } :=
+          h.transfer rfl (fun _ => rfl) (by simp [hk]) (by simp [hres])
+        refine FInv_nextSpawn h1 ?_ hres _
+        intro w hw
+        rcases List.mem_append.mp hw with hw | hw
+        · exact hreg w hw
+        · simp at hw; subst hw; exact Nat.lt_of_lt_of_le hk2 (spawnCount_le i)
+      · rename_i hg
+        have hres := hr.result_none (by simp [hg])
+        split
+        · exact FInv_abortMain (h.transfer (s' := { s with ngets := s.ngets + 1 }) rfl (fun _ => rfl) (by simp [hg]) (by simp [hres])) hreg _
+        · split
+          · exact h
+          · rename_i x q hqq
+            have h1 : FInv i { s with base := { s.base with queue := q }, ngets := s.ngets + 1 } :=
+              h.transfer rfl (fun _ => rfl) (by simp [hg]) (by simp [hres])
+            split
+            · exact h1.transfer rfl (fun _ => rfl) (by simp) (by simp [hres])
+            · exact h1.transfer rfl (fun _ => rfl) (by simp) (by simp [hres])
+            · exact FInv_loopHead h1 hres
+            · exact h1.transfer rfl (fun _ => rfl) (by simp) (by simp [hres])
+      · rename_i w hw
+        have hres := hr.result_none (by simp [hw])
+        split
+        · exact FInv_loopHead (h.transfer (s' := { s with joined := s.joined ++ [w] }) rfl (fun _ => rfl) (by simp [hw]) (by simp [hres])) hres
+        · exact h
+      · rename_i e he
+        have hres := hr.result_none (by simp [he])
+        have h1 : FInv i { s with sink := s.sink ++ [(e, i.mfaults.contains s.nstatus)], nstatus := s.nstatus + 1 } :=
+          h.transfer rfl (fun _ => rfl) (by simp [he]) (by simp [hres])
+        dsimp only
+        split
+        · exact FInv_abortMain h1 hreg _
+        · exact FInv_loopHead h1 hres
+      · rename_i ha
+        have hsu := h.abort_suite ha
+        have h1 : FInv i { s with base := stepThread s.base 0 } :=
+          h.transfer rfl (fun w => stepThread_pcs_other s.base 0 (w + 1) (by omega)) (fun _ => hsu) (fun _ _ => hsu)
+        dsimp only
+        split
+        · exact h1.transfer rfl (fun _ => rfl) (by simp) (fun _ _ => hsu)
+        · exact h1
+      · exact h
+    · exact h
+  · split
+    · rename_i ht hlt
+      have ht' : t = (t - 1) + 1 := by omega
+      rw [ht']
+      exact FInv_worker h hq (t - 1) hlt
+    · exact h
+
+theorem FInv_runC {i : SInput} (sched : List Nat) : ∀ {s : CSt}, FInv i s → QInv i s → RInv i s → FInv i (runC i s sched) := by
+  induction sched with
+  | nil => intro s h _ _; exact h
+  | cons t rest ih => intro s h hq hr; exact ih (FInv_stepC h hq hr t) (QInv_stepC hq t) (RInv_stepC hr hq t)
+
+theorem FInv_drainC {i : SInput} : ∀ (fuel : Nat) {s : CSt}, FInv i s → QInv i s → RInv i s → FInv i (drainC i fuel s) := by
+  intro fuel
+  induction fuel with
+  | zero => intro s h _ _; exact h
+  | succ f ih =>
+    intro s h hq hr
+    unfold drainC
+    split
+    · exact h
+    · exact ih (FInv_stepC h hq hr _) (QInv_stepC hq _) (RInv_stepC hr hq _)
+
+theorem FInv_init (i : SInput) : FInv i (initC i) := by
+  unfold initC
+  refine FInv_nextSpawn ?_ (by intro w hw; cases hw) rfl 0
+  refine ⟨by simp, ?_, by simp, by intro c hc; simp at hc, by intro c hc; simp at hc⟩
+  intro w hw a rest hwp
+  have hwk : i.workers[w]? = some i.workers[w] := by simp [hw]
+  rw [wpc_init i _ rfl _ rfl w _ hwk] at hwp
+  cases hf : i.flavour with
+  | suite =>
+    have hit := items_suite w i.workers[w]
+    simp only [progOf, hf] at hwp
+    rw [hwp] at hit
+    intro x hx
+    have := stepItems_tail_subset (a := a) x hx
+    rw [hit] at this
+    simp at this; subst this; rfl
+  | stream =>
+    simp only [progOf, hf, streamProg, segSteps] at hwp
+    have hrest : rest = segSteps ((streamEvents w i.tb i.workers[w]).map (fun e => Seg.put (.status e)) ++ [.put (.stopRun w)]) := by
+      simp at hwp; exact hwp.2.symm
+    have e1 : (List.map (fun e => Seg.put (Item.status e)) (streamEvents w i.tb i.workers[w])) = ((streamEvents w i.tb i.workers[w]).map Item.status).map Seg.put := by
+      simp
+    intro x hx
+    rw [hrest, segSteps_append, stepItems_append, e1, stepItems_segSteps_puts] at hx
+    simp [segSteps, stepItems_cons_put] at hx
+    rcases hx with ⟨e, _, rfl⟩ | hx
+    · rfl
+    · have : x = .stopRun w := by simpa [stepItems] using hx
+      subst this; rfl
+
+theorem FInv_final (i : SInput) : FInv i (finalC i) :=
+  FInv_drainC _ (FInv_runC _ (FInv_init i) (QInv_init i) (RInv_init i)) (QInv_runC _ (QInv_init i)) (RInv_runC _ (RInv_init i) (QInv_init i))
+
 end TTV.Conc
